@@ -24,6 +24,7 @@ from typing import TYPE_CHECKING, Any
 
 from typing import Optional, Mapping, Union
 
+from . import as_table_cell
 from .benchmark import Benchmark
 from .termination_check import TerminationCheck
 from ..output import UIError
@@ -468,7 +469,9 @@ class RunId(object):
         result.append(self.machine_as_str)
         result.append(str(persisted_run_id))
 
-        return result
+        # these are descriptive columns of a line in a tab-separated file,
+        # the identity of the run is recorded in its metadata record
+        return [as_table_cell(cell) for cell in result]
 
     def as_dict(self, without_benchmark = False):
         extra_args = self.benchmark.extra_args
